@@ -602,15 +602,33 @@ func rulePosFormula(c *Ctx, r *Rep, tier string) {
 				continue
 			}
 			bo, ok := iff.Cond.(*ssa.BinOp)
-			if !ok || (bo.Op != token.EQL && bo.Op != token.NEQ) {
+			if !ok {
 				continue
 			}
+			// line(p) ≤ line(Length) always, so "<" is "≠" and "≥" is "=":
+			// every spelling of "p is on the last line" is accepted
 			d := polyOf(bo.X, nil).add(polyOf(bo.Y, nil), -1)
-			if d.eq(lastLine) || d.eq(poly{}.add(lastLine, -1)) {
-				sel = b
-				if bo.Op == token.NEQ {
-					yes = 1
+			op := bo.Op
+			if d.eq(poly{}.add(lastLine, -1)) {
+				// operands the other way round: mirror the operator
+				switch op {
+				case token.LSS:
+					op = token.GTR
+				case token.GTR:
+					op = token.LSS
+				case token.LEQ:
+					op = token.GEQ
+				case token.GEQ:
+					op = token.LEQ
 				}
+			} else if !d.eq(lastLine) {
+				continue
+			}
+			switch op {
+			case token.EQL, token.GEQ:
+				sel, yes = b, 0
+			case token.NEQ, token.LSS:
+				sel, yes = b, 1
 			}
 		}
 		if sel == nil {
